@@ -2,6 +2,7 @@ package rules
 
 import (
 	"fmt"
+	"go/token"
 	"go/types"
 	"strings"
 
@@ -360,26 +361,80 @@ func runC11(p *core.Prog, r *core.Report, tier string) {
 			}
 		}
 		nKey := 0
-		check := func(in ssa.Instruction, m, key ssa.Value, what string) {
+		addrAlias := map[*ssa.Function]*ssa.Parameter{}
+		var check func(in ssa.Instruction, m, key ssa.Value, what string)
+		checkIn := func(fn *ssa.Function, in ssa.Instruction, m, key ssa.Value, what string) {
+			if al := addrAlias[fn]; al != nil && key == ssa.Value(al) {
+				key = addr // the callee's parameter that receives the address
+			}
+			check(in, m, key, what)
+		}
+		check = func(in ssa.Instruction, m, key ssa.Value, what string) {
 			ld, ok := m.(*ssa.UnOp)
 			if !ok {
 				return
 			}
-			if _, isGlobal := ld.X.(*ssa.Global); !isGlobal {
+			// the cache: a package-level map, or a map field of a package-level object
+			rooted := false
+			var at ssa.Value = ld.X
+			for depth := 0; depth < 5 && at != nil; depth++ {
+				switch y := at.(type) {
+				case *ssa.Global:
+					rooted = true
+					at = nil
+				case *ssa.FieldAddr:
+					at = y.X
+				case *ssa.UnOp:
+					at = y.X
+				case *ssa.Alloc:
+					at = singleStoreOf(&ssa.UnOp{X: y, Op: token.MUL})
+					if at == nil {
+						if st := core.ReachingStoreAny(y); st != nil {
+							at = st
+						}
+					}
+				case *ssa.Parameter:
+					// the receiver of a method of the cache object: its callers hand in the package-level object
+					os := p.ParamOrigins(y.Parent(), 0, 0)
+					at = nil
+					if len(os) == 1 {
+						at = os[0]
+					}
+				default:
+					at = nil
+				}
+			}
+			if !rooted {
 				return
 			}
 			nKey++
 			r.Check(addr != nil && key == ssa.Value(addr), "C11.i", fmt.Sprintf("util.FetchBuilderClient|client-cache|%s#%d", what, nKey), p.Pos(in.Pos()), "the client cache is keyed by the relay address itself",
 				"the relay client cache is keyed by "+ds.D(key).String()+" instead of the relay's full address: relays whose addresses agree in that part share one client, so one relay receives the other's registrations and the other none")
 		}
-		core.EachInstr(fb, func(in ssa.Instruction) {
-			switch x := in.(type) {
-			case *ssa.Lookup:
-				check(in, x.X, x.Index, "lookup")
-			case *ssa.MapUpdate:
-				check(in, x.Map, x.Key, "insert")
+		scanFns := []*ssa.Function{fb}
+		// the cache may live in an object whose method does the work: the same-package callees handed the address
+		for _, ci := range core.Calls(fb, func(c *ssa.CallCommon) bool {
+			return c.StaticCallee() != nil && c.StaticCallee().Pkg == fb.Pkg && len(c.StaticCallee().Blocks) > 0
+		}) {
+			for i, a := range ci.Common().Args {
+				if a == ssa.Value(addr) && i < len(ci.Common().StaticCallee().Params) {
+					callee := ci.Common().StaticCallee()
+					scanFns = append(scanFns, callee)
+					addrAlias[callee] = callee.Params[i]
+				}
 			}
-		})
+		}
+		for _, sf := range scanFns {
+			sfn := sf
+			core.EachInstr(sfn, func(in ssa.Instruction) {
+				switch x := in.(type) {
+				case *ssa.Lookup:
+					checkIn(sfn, in, x.X, x.Index, "lookup")
+				case *ssa.MapUpdate:
+					checkIn(sfn, in, x.Map, x.Key, "insert")
+				}
+			})
+		}
 		r.Floor("C11.i relay client cache accesses", nKey, 2)
 		for _, ci := range core.CallsNamed(fb, "WithAddress") {
 			r.Check(addr != nil && ci.Common().Args[0] == ssa.Value(addr), "C11.i", "util.FetchBuilderClient|client-address", p.Pos(ci.Pos()), "the client is created for the address asked for", "the client is created for "+ds.D(ci.Common().Args[0]).String()+", not for the address asked for")
